@@ -98,12 +98,6 @@ Theorem C04_map_item_rules_refuted :
 Proof. eexists. split; [vm_compute; reflexivity|]. vm_compute. discriminate. Qed.
 Print Assumptions C04_map_item_rules_refuted.
 
-(* a bound outside the range of the format is truncated when written *)
-Theorem C04_truncated_bound_refuted :
-  not_read_back (EE [] []) (plain [97] (PSingle (TInt U32 (Some (IR None (Some 5000000000%Z) None None)) None))).
-Proof. eexists. split; [vm_compute; reflexivity|]. vm_compute. discriminate. Qed.
-Print Assumptions C04_truncated_bound_refuted.
-
 Theorem C04_full_refuted : ~ C04_full_statement.
 Proof.
   intro H. destruct C04_key_custom_refuted as [o [Hw Hr]].
